@@ -37,6 +37,7 @@ IDX2 = [0, 1, 5]
 ZZ = 2
 TOL = Fraction(1, 10 ** 9)
 JOB_BUDGET_S = 600
+THETA_MAX = Fraction(1, 500)  # theta = dGamma / phi of the abstracted spectral return: theta * lambda_max <= 1/2 (small plastic increments)
 
 
 # ------------------------------------------------------------------------------------------------ helpers
@@ -500,6 +501,384 @@ def job_maxwell(cfg):
     return res
 
 
+# ------------------------------------------------------------------------------------------------ plastic step, spectral return, loop abstracted
+class _HavocNp:
+    """Stands in for the `np` global of `_spectral` during one symbolic run: the statement `theta = np.maximum(theta - step, 0.0)` of the
+    Newton loop in `Solve` assigns a fresh symbol theta* >= 0 instead (havoc of the loop-carried variable).  Everything else is forwarded."""
+
+    def __init__(self, inner, theta):
+        self._inner, self._theta, self.count = inner, theta, 0
+
+    def __getattr__(self, name):
+        return getattr(self._inner, name)
+
+    def maximum(self, a, b):
+        import sys
+
+        if facade._ACTIVE[0] and sys._getframe(1).f_code.co_name == "Solve":
+            self.count += 1
+            out = np.empty(np.shape(a), dtype=object)
+            out[...] = self._theta
+            return out.view(type(a)) if isinstance(a, np.ndarray) and type(a) is not np.ndarray else out
+        return self._inner.maximum(a, b)
+
+
+def reduce_by_root(numer, vid, N, D):
+    """numer (Poly) modulo phi^2 = N / D (phi = variable vid): returns (A, B) with numer * D^K = A + B phi."""
+    co = numer.coeffs_in(vid)
+    if not co:
+        return numer, Poly()
+    K = max(e // 2 for e in co)
+    A, B = Poly(), Poly()
+    for e, cf in co.items():
+        k = e // 2
+        term = cf.mul(N.pow(k)).mul(D.pow(K - k)) if (k or K) else cf
+        if e % 2:
+            B = B.add(term)
+        else:
+            A = A.add(term)
+    return A, B
+
+
+def job_spectral(cfg):
+    """One plastic step through the scalar spectral return.  The Newton loop on theta is ABSTRACTED by its exit condition: the loop-carried
+    theta is havoc'd after the first iteration (fresh symbol theta* >= 0 whose shadow is the value the real loop converges to at the shadow
+    point), the next pass through the real loop body evaluates the real residual at theta* and the real convergence test, whose outcome
+    `|r(theta*)| < tol sigma_y` is recorded as path condition.  Everything after the loop (stress, plastic multiplier, state, consistent
+    tangent) is the real code on theta*.  Any theta the real loop can exit with satisfies the recorded exit condition, so an obligation proved
+    for all theta* on the path holds for the loop's actual output (provided the loop exits through its convergence test, not maxIter)."""
+    from EasyFEA.Models.InElastic import Behavior, Yield, IsotropicHardening, _spectral
+
+    res = JobResult(cfg)
+    c = new_context()
+    facade.install()
+    law, mode, surf = cfg["law"], cfg["mode"], cfg["surface"]
+    dim, ps = mode_args(mode)
+    assert not ps
+    n = 6 if dim == 3 else 3
+    el = elastic_law(law)
+    Cf = np.asarray(el.C, dtype=float)
+    C6 = exactC(el.C)
+    scale = Fraction(float(np.abs(el.C).max()))
+    SY = 10.0
+    P6 = exactC(make_surface(surf).P)
+    sh_eps = [Fraction(1, 16), Fraction(-1, 40), Fraction(1, 50)] if n == 3 else [Fraction(1, 16), Fraction(-1, 40), Fraction(1, 100), Fraction(1, 80), Fraction(-1, 60), Fraction(1, 50)]
+    eps = sym_array("eps", (n,), -Fraction(1, 4), Fraction(1, 4), shadows=sh_eps)
+    if cfg.get("symbolic_epsP", False):
+        epsP = sym_array("epsP", (6,), -Fraction(1, 50), Fraction(1, 50), shadows=[Fraction(1, 100), Fraction(-1, 300), Fraction(-1, 150), Fraction(1, 400), Fraction(-1, 500), Fraction(1, 250)])
+    else:
+        epsP = np.array([Fraction(1, 128), Fraction(-1, 256), Fraction(-1, 256), Fraction(1, 512), Fraction(-1, 1024), Fraction(1, 256)], dtype=object)
+    pv = c.var("p", 0, 1, shadow=Fraction(1, 10))
+    H = c.var("H", 0, 50, shadow=Fraction(5))
+    label = f"spectral plastic step {surf} {law} {mode}" + (" symbolic eps_p" if cfg.get("symbolic_epsP") else "")
+    res.functions |= {"Behavior.Integrate", "Behavior.Compute_strain_6d", "Behavior.__Integrate_3d", "Behavior.__Spectral", "_spectral.Build (concrete)", "_spectral.Solve (loop abstracted)", "_spectral._Phi",
+                      "_spectral.Tangent", "IsotropicHardening.Linear", "Yield.VonMises / Hill"}
+    res.stubs.add("Newton loop of _spectral.Solve: loop-carried theta havoc'd after the first pass (fresh theta* >= 0, the clamp `np.maximum(., 0)` is thereby assumed), exit condition recorded from the real convergence test")
+
+    def mk(Hv, solver="auto"):
+        return Behavior(dim, el, yieldSurface=make_surface(surf), hardening=IsotropicHardening.Linear(Hv), solver=solver)
+
+    def to6(e):
+        e6 = np.zeros(6, dtype=object if np.asarray(e).dtype == object else float)
+        if dim == 3:
+            e6[:] = e
+        else:
+            e6[IDX2] = e
+        return e6
+
+    Pf = np.asarray(make_surface(surf).P, dtype=float)
+
+    def run_float(env, ef=None, spy=None):
+        ef = farr(c, env, eps) if ef is None else ef
+        zf = np.concatenate([farr(c, env, epsP), [fval(c, env, pv)]])
+        Hf = fval(c, env, H)
+        bb = mk(Hf)
+        zin = fe(zf.copy())
+        s, Ca, zz, cv = bb.Integrate(fe(ef), zin, 0.0)
+        return ef, zf, Hf, np.asarray(s)[0, 0], np.asarray(Ca)[0, 0], np.asarray(zz)[0, 0], np.asarray(zin)[0, 0], bool(np.asarray(cv).all())
+
+    def replay(env):
+        ef, zf, Hf, s, Ca, zz, zin, cv = run_float(env)
+        e6 = to6(ef)
+        s6 = Cf @ (e6 - zz[:6])
+        dep, dp = zz[:6] - zf[:6], zz[6] - zf[6]
+        phi = float(np.sqrt(max(s6 @ Pf @ s6, 0.0)))
+        errs = {"yield_function_over_sigma_y": (phi - SY - Hf * zz[6]) / SY, "d_p": float(dp), "trace_d_eps_p": float(dep[:3].sum()),
+                "stress_vs_state": float(np.abs(s - (s6 if dim == 3 else s6[IDX2])).max() / float(scale)), "dissipation": float(s6 @ dep),
+                "flow_rule": float(np.abs(dep * phi - dp * (Pf @ s6)).max()), "committed_state_written": float(np.abs(zin - zf).max())}
+        Cn = num_tangent(lambda e: run_float(env, e)[3], ef)
+        errs["tangent_vs_finite_differences"] = float(np.abs(Ca - Cn).max() / float(scale))
+        _, _, _, s_n, Ca_n, zz_n, _, _ = (lambda bbn: (None, None, None) + tuple(np.asarray(x)[0, 0] for x in bbn.Integrate(fe(ef), fe(zf.copy()), 0.0)[:3]) + (None, None))(mk(Hf, "newton"))
+        errs["solvers_differ"] = float(max(np.abs(s - s_n).max() / float(scale), np.abs(zz - zz_n).max(), np.abs(Ca - Ca_n).max() / float(scale)))
+        bad = (abs(errs["yield_function_over_sigma_y"]) > 1e-7 or dp < -1e-12 or abs(errs["trace_d_eps_p"]) > 1e-10 or errs["stress_vs_state"] > 1e-9 or errs["dissipation"] < -1e-9 or errs["flow_rule"] > 1e-8
+               or errs["tangent_vs_finite_differences"] > 1e-5 or errs["committed_state_written"] > 0 or errs["solvers_differ"] > 1e-6 or not cv)
+        return bad, {"eps": ef.tolist(), "zOld": zf.tolist(), "H": Hf, **errs}
+
+    if preflight(res, c, replay, label):
+        return res
+    # the value the real loop converges to at the shadow point
+    got = {}
+    orig_solve = _spectral.Solve
+
+    def spy(*a, **k):
+        r_ = orig_solve(*a, **k)
+        got["theta"] = float(np.asarray(r_.theta)[0, 0])
+        got["active"] = bool(np.asarray(r_.active)[0, 0])
+        return r_
+
+    _spectral.Solve = spy
+    try:
+        run_float(dict(c.shadow))
+    finally:
+        _spectral.Solve = orig_solve
+    if not got.get("active") or not got.get("theta", 0) > 0:
+        res.harness_errors.append({"label": label, "detail": f"shadow point is not a plastic step: {got}"})
+        return res
+    # the recorded sign of r(theta*) at the shadow decides which half of the exit region is claimed: cfg['side'] nudges the shadow
+    th_sh = Fraction(got["theta"]) * (1 + Fraction(cfg.get("side", 0), 10 ** 13))
+    theta = c.var("theta", 0, THETA_MAX, shadow=th_sh)
+    res.symbols = n + 3 + (6 if cfg.get("symbolic_epsP") else 0)
+    zold = np.concatenate([epsP, [pv]])
+    hv = _HavocNp(_spectral.np, theta)
+    _spectral.np = hv
+    mark = c.mark()
+    try:
+        with facade.symbolic():
+            b = mk(H)
+            z_in = fe(zold.copy())
+            keep_z = np.array(np.asarray(z_in), dtype=object, copy=True)
+            sig, Calg, z, conv = b.Integrate(fe(eps.copy()), z_in, 0.0)
+    finally:
+        _spectral.np = hv._inner
+    pcs = c.pc_since(mark)
+    res.paths, res.path_conditions = 1, len(pcs)
+    if hv.count != 1:
+        res.inconclusive.append({"label": label, "detail": f"the abstracted loop did not exit after one havoc (count = {hv.count}): the shadow theta is not accepted by the convergence test"})
+        return res
+    sig, Calg, z = np.asarray(sig)[0, 0], np.asarray(Calg)[0, 0], np.asarray(z)[0, 0]
+    eps6 = to6(eps)
+    epn, pn = z[:6], z[6]
+    dep = epn - epsP
+    s6 = matvec(C6, eps6 - epn)  # the stress of the returned state (what Compute_stress gives for it)
+    phi = (as_sym(pn) - pv) / theta
+    pvars = [v for v in phi.vars() if c.kind.get(v) == "aux"]
+    if not (phi.d.is_const() and len(pvars) == 1 and phi.n.nterms() == 1):
+        res.harness_errors.append({"label": label, "detail": f"plastic multiplier is not theta * phi: {repr(phi)[:200]}"})
+        return res
+    phi_vid = pvars[0]
+    rad = as_sym(c.auxdef[phi_vid][1][0])
+    Nn, Dd = rad.n, rad.d
+    strain_tol = Fraction(1, 10 ** 11)
+    # D6 returned stress = C : (eps - eps_p_new)
+    record_entries(res, f"{label}: returned stress = C : (eps - eps_p_new)", sig, s6 if dim == 3 else s6[IDX2], pcs, replay, TOL, scale=scale,
+                   sample={"obligation": "for all strains, committed p, H and every theta* the loop can exit with: |sigma - C (eps6 - eps_p_new)| <= 1e-9 |C|", "config": cfg})
+    # D1 plastic multiplier non-negative, accumulated plastic strain does not decrease
+    o = prove_cond(Cond((as_sym(pn) - pv).n.scale(1 / (as_sym(pn) - pv).d.const_value()), ">="), pcs, f"{label} dp>=0")
+    res.record(f"{label}: accumulated plastic strain does not decrease", o, replay)
+    # D2 traceless plastic strain increment
+    record_entries(res, f"{label}: plastic strain increment traceless", [dep[0] + dep[1] + dep[2]], [0], pcs, replay, strain_tol)
+    # D3 flow rule d(eps_p) = theta P sigma  (= dGamma P sigma / phi: associative, normal to the surface at the returned stress)
+    record_entries(res, f"{label}: flow rule d(eps_p) = (dGamma / phi) P : sigma", dep, matvec(P6, s6) * theta, pcs, replay, strain_tol * 10)
+    # dissipation sigma : d(eps_p) = theta sigma:P:sigma >= 0 with P positive semi-definite (exact: P + 1e-12 I positive definite)
+    okP = spd_exact(np.array([[Fraction(P6[i, j]) + (Fraction(1, 10 ** 12) if i == j else 0) for j in range(6)] for i in range(6)], dtype=object))
+    res.record(f"{label}: P positive semi-definite, theta >= 0 -> dissipation sigma : d(eps_p) >= 0", Outcome("held", how="ground-exact") if okP else Outcome("cex", env=dict(c.shadow), how="structure"), replay)
+    # D4 admissibility: |f(sigma_out, p_new)| <= 3 tol sigma_y.  (a) sigma:P:sigma = phi_code^2 up to round-off (aux-free);  (b) from the recorded exit condition
+    quad = sum((s6[i] * matvec(P6, s6)[i] for i in range(6)), 0)
+    dq = as_sym(quad) - Sym.make(Nn, Dd)
+    delta = Fraction(1, 10 ** 9)
+    oa = prove_abs_le(dq, delta, pcs, f"{label} phi^2", timeout_ms=60000)
+    res.record(f"{label}: sigma:P:sigma equals the code's phi^2 (|.| <= 1e-9)", oa, replay, key=f"{label}: admissible")
+    # (b) free variables phi_o, phi_c >= 0 with |phi_o^2 - phi_c^2| <= delta and the recorded exit condition in (phi_c, theta, p, H) => |phi_o - sy - H (p + theta phi_c)| <= 3e-9
+    exit_pcs = [q for q in pcs if phi_vid in q.vars() and q.vars() <= {phi_vid, _vid(theta), _vid(pv), _vid(H)}]
+    n_exit = len(exit_pcs)
+    exit_pcs = exit_pcs + list(c.domain_conds({_vid(theta), _vid(pv), _vid(H)}))  # the boxes of theta*, p, H (prove_cond adds the goal's variables only)
+    phio = c.var("phi_o", 0, 10 ** 4, shadow=c.shadow[phi_vid])
+    pc_ = Poly.var(phi_vid)
+    po_ = Poly.var(_vid(phio))
+    close = [Cond(po_.pow(2).sub(pc_.pow(2)).sub(Poly.const(delta)), "<="), Cond(po_.pow(2).sub(pc_.pow(2)).add(Poly.const(delta)), ">="), Cond(pc_, ">=")]
+    fo = (phio - SY - H * (pv + theta * Sym(pc_)))
+    tolA = Fraction(3, 10 ** 9) * Fraction(SY)
+    ob = prove_cond(("and", [Cond(fo.n.sub(Poly.const(tolA)), "<="), Cond(fo.n.add(Poly.const(tolA)), ">=")]), exit_pcs + close, f"{label} admissible", timeout_ms=60000)
+    res.record(f"{label}: |f(sigma, p_new)| <= 3e-9 sigma_y from the loop's exit condition", ob, replay, key=f"{label}: admissible",
+               sample={"obligation": "exit condition |r(theta*)| < tol sigma_y (recorded from the real convergence test) /\\ |phi_o^2 - phi_c^2| <= 1e-9 => |phi_o - sigma_y - H p_new| <= 3e-9 sigma_y (QF_NRA)", "exit_conditions": [repr(q)[:160] for q in exit_pcs[:n_exit]]})
+    if n_exit < 2:
+        res.harness_errors.append({"label": label, "detail": "exit condition of the abstracted loop not found among the path conditions"})
+    # D5 consistent tangent: theta(eps) is defined implicitly by r(eps, theta) = 0 with r the loop's residual; d sigma/d eps = ds/de|theta - ds/dtheta (dr/de) / (dr/dtheta).
+    #    Identity checked without division, exactly modulo phi^2 = N / D:   (C_alg - ds/de|theta) dr/dtheta + ds/dtheta (x) dr/de = 0
+    r_sym = Sym(pc_) - SY - H * (pv + theta * Sym(pc_))
+    drdth = r_sym.diff(theta)
+    # box of phi for the interval bounds below: phi >= 9/10 sigma_y follows from the exit condition (solver), phi^2 = N / D <= max N / min D
+    phi_box = None
+    olow = prove_cond(Cond(pc_.sub(Poly.const(Fraction(9, 10) * Fraction(SY))), ">="), exit_pcs + [Cond(pc_, ">=")], f"{label} phi lower bound", timeout_ms=30000)
+    from engine import oblig as _ob0
+    bx0 = _ob0._box_for(Nn.vars() | Dd.vars())
+    res.notes.append(f"exit pcs {[repr(q)[:200] for q in exit_pcs]} cex {olow.env if olow.status == 'cex' else None} names { {v: c.name(v) for v in (phi_vid, _vid(theta), _vid(pv), _vid(H))} }")
+    res.notes.append(f"phi box: lower-bound query {olow.status}, radicand box {'ok' if bx0 is not None else None}")
+    if olow.status == "held" and bx0 is not None:
+        loN, hiN = smt.poly_interval(Nn, bx0)
+        loD0, hiD0 = smt.poly_interval(Dd, bx0)
+        if loD0 > 0 and hiN > 0:
+            import math
+            res.notes.append(f"N in [{float(loN):.3g},{float(hiN):.3g}] D in [{float(loD0):.3g},{float(hiD0):.3g}]")
+            phi_box = (Fraction(9, 10) * Fraction(SY), Fraction(math.ceil(math.sqrt(float(hiN / loD0)) * 1.000001 * 2 ** 20 + 1), 2 ** 20))
+    sig_s = [as_sym(x) for x in sig]
+    dsdth = [x.diff(theta) for x in sig_s]
+    envf = dict(c.shadow)
+    if cfg.get("tangent"):  # experimental: the symbolic tangent identity of the abstracted return (polynomials of ~10^4 terms; interval bounds too loose so far) - not part of the claim
+        worst = None
+        nexact = 0
+        ninterval = 0
+        envf = dict(c.shadow)
+        for i in range(n):
+            for j in range(n):
+                R = (as_sym(Calg[i, j]) - sig_s[i].diff(eps[j])) * drdth + dsdth[i] * r_sym.diff(eps[j])
+                val = R.eval(envf)
+                if abs(val) > Fraction(1, 10 ** 6) * scale:
+                    worst = Outcome("cex", env=envf, how="shadow", detail=f"tangent entry ({i},{j}): residual {float(val):.4g} at the shadow point")
+                    break
+                A, B = reduce_by_root(R.n, phi_vid, Nn, Dd)
+                if A.is_zero() and B.is_zero():
+                    nexact += 1
+                    continue
+                # not identically zero (round-off sized coefficients; polynomials of ~10^4 terms, out of reach of z3): sound interval bound.
+                # R = (A + B phi) / (R.d D^K) with B == 0 required; |R| <= max|A| / min|R.d D^K| over the box, compared with 1e-9 |C| |dr/dtheta|_shadow
+                from engine import oblig as _ob
+
+                K = max(e // 2 for e in R.n.coeffs_in(phi_vid))
+                Den = R.d.mul(Dd.pow(K))
+                box = _ob._box_for((A.vars() | Den.vars()) - {phi_vid})
+                if box is not None and phi_vid in Den.vars():
+                    box = {**box, phi_vid: phi_box} if phi_box is not None else None
+                okb = False
+                detail = f"no finite box (phi box {phi_box}, B zero {B.is_zero()}, box {'ok' if box is not None else None})"
+                if B.is_zero() and box is not None:
+                    loA, hiA = smt.poly_interval(A, box)
+                    loD, hiD = smt.poly_interval(Den, box)
+                    if loD > 0 or hiD < 0:
+                        bound = max(abs(loA), abs(hiA)) / min(abs(loD), abs(hiD))
+                        ref = TOL * scale * abs(drdth.eval(envf))
+                        okb = bound <= ref
+                        detail = f"interval bound {float(bound):.3g} vs tolerance {float(ref):.3g}"
+                    else:
+                        detail = f"denominator interval [{float(loD):.3g}, {float(hiD):.3g}] contains 0"
+                if okb:
+                    smt.STATS["closed_by_interval"] = smt.STATS.get("closed_by_interval", 0) + 1
+                    ninterval += 1
+                    continue
+                worst = Outcome("inconclusive", how="interval", detail=f"tangent entry ({i},{j}): {detail}")
+                break
+            if worst is not None:
+                break
+        res.record(f"{label}: consistent tangent = d sigma / d eps (implicit differentiation of the loop's residual)", worst or Outcome("held", how="normal-form" if nexact == n * n else "interval"), replay,
+                   key=f"{label}: tangent = d sigma / d eps",
+                   sample={"obligation": "(C_alg - d sigma/d eps|theta) dr/dtheta + d sigma/dtheta (x) dr/d eps == 0 entrywise, exactly modulo phi^2 = N/D (symbolic differentiation of the returned stress and of the residual)", "entries_closed_exactly": nexact, "entries_closed_by_interval_bound": ninterval})
+    # purity
+    same = all(as_sym(a).structurally_equal(as_sym(b_)) for a, b_ in zip(np.asarray(z_in)[0, 0], keep_z[0, 0]))
+    res.record(f"{label}: committed state not written", Outcome("held", how="normal-form") if same else Outcome("cex", env=dict(c.shadow), how="structure"), replay)
+    # twins: a wrong flow rule and a wrong tangent must be refuted
+    o = prove_abs_le(as_sym(dep[0]) - 2 * as_sym((matvec(P6, s6) * theta)[0]), strain_tol * 10, pcs, "twin")
+    res.twin(f"{label} twin (flow rule)", o.status == "cex")
+    Rt = (as_sym(Calg[0, 0]).eval(envf) * 2 - sig_s[0].diff(eps[0]).eval(envf)) * drdth.eval(envf) + dsdth[0].eval(envf) * r_sym.diff(eps[0]).eval(envf)
+    res.twin(f"{label} twin (tangent residual)", abs(Rt) > Fraction(1, 10 ** 6) * scale)
+    # the tangent identity (C_alg - ds/de|theta) dr/dtheta + ds/dtheta (x) dr/de = 0 evaluated exactly at the shadow point (a ground fact: one point, rational arithmetic)
+    worst_t = 0
+    drdth_v = drdth.eval(envf)
+    dsdth_v = [x.eval(envf) for x in dsdth]
+    drde_v = [r_sym.diff(eps[j]).eval(envf) for j in range(n)]
+    for i in range(n):
+        for j in range(n):
+            Rij = (as_sym(Calg[i, j]).eval(envf) - sig_s[i].diff(eps[j]).eval(envf)) * drdth_v + dsdth_v[i] * drde_v[j]
+            worst_t = max(worst_t, abs(Rij))
+    okt = worst_t <= Fraction(1, 10 ** 6) * scale
+    res.record(f"{label}: tangent identity at the shadow point (ground fact, not a quantified claim)", Outcome("held", how="ground-exact") if okt else Outcome("cex", env=envf, how="shadow", detail=f"residual {float(worst_t):.4g}"), replay,
+               key=f"{label}: tangent = d sigma / d eps")
+    res.stubs |= facade.USED_STUBS
+    return res
+
+
+# ------------------------------------------------------------------------------------------------ concrete probe of plastic paths (ground facts)
+def job_probe(cfg):
+    """NOT a quantified claim: the oracle of the replay functions evaluated along one concrete strain path (loading through yield in fine
+    steps, unloading, reversal, non-proportional leg) with the state committed after every step - the standing version of the replay, for the
+    configurations whose plastic steps the symbolic jobs cannot reach (general local Newton, plane stress with flow).  Reported as ground facts."""
+    res = JobResult(cfg)
+    law, mode, solver = cfg["law"], cfg["mode"], cfg["solver"]
+    dim, ps = mode_args(mode)
+    n = 6 if dim == 3 else 3
+    el = elastic_law(law)
+    Cf = np.asarray(el.C, dtype=float)
+    scale = float(np.abs(Cf).max())
+    SY = 10.0
+    label = f"probe {cfg['surface']} {cfg.get('hardening')} kin={cfg.get('kinematic')} {law} {mode} solver={solver}"
+    b = make_behavior(cfg, el, dim, ps, solver)
+    bn = make_behavior(cfg, el, dim, ps, "newton") if solver == "auto" else None
+    nz = b.layout.n
+    nk = {"prager": 1, "af": 1, "chaboche": 2}.get(cfg.get("kinematic"), 0)
+    Hh = 5.0 if cfg.get("hardening") == "linear" else 0.0
+    kin = {"prager": [(12.0, 0.0)], "af": [(12.0, 3.0)], "chaboche": [(12.0, 3.0), (4.0, 0.0)]}.get(cfg.get("kinematic"), [])
+    surf = make_surface(cfg["surface"])
+    ey = SY / 200.0
+    # path: 0 -> 2.5 ey in 40 steps along d1, back to -2.5 ey in 40 steps, then a non-proportional leg along d2
+    d1 = np.array([1.0, -0.2, 0.1] if n == 3 else [1.0, -0.2, 0.1, 0.3, -0.1, 0.2])
+    d2 = np.array([0.2, 1.0, -0.6] if n == 3 else [0.2, 1.0, -0.3, -0.4, 0.5, -0.6])
+    amps = list(np.linspace(0, 2.5, 41)[1:]) + list(np.linspace(2.5, -2.5, 41)[1:])
+    path = [a * ey * d1 for a in amps] + [-2.5 * ey * d1 + t * 2.0 * ey * d2 for t in np.linspace(0, 1, 21)[1:]]
+    z = np.zeros(nz)
+    worst = {"yield": 0.0, "dp": 0.0, "trace": 0.0, "dissipation": 0.0, "sig_zz": 0.0, "solvers": 0.0, "tangent": 0.0, "written": 0.0, "stress_vs_state": 0.0}
+    nflow = 0
+
+    def integ(beh, e, zz):
+        zin = fe(zz.copy())
+        s, Ca, zn, cv = beh.Integrate(fe(e), zin, 0.0)
+        return np.asarray(s)[0, 0], np.asarray(Ca)[0, 0], np.asarray(zn)[0, 0], float(np.abs(np.asarray(zin)[0, 0] - zz).max()), bool(np.asarray(cv).all())
+
+    bad_conv = 0
+    for k, e in enumerate(path):
+        s, Ca, zn, written, cv = integ(b, e, z)
+        bad_conv += 0 if cv else 1
+        e6 = np.asarray(b.Compute_strain_6d(fe(e), fe(z.copy()), 0.0))[0, 0]
+        s6 = Cf @ (e6 - zn[:6])
+        X = np.zeros(6)
+        for i, (Ck, gk) in enumerate(kin):
+            X = X + (2.0 / 3.0) * Ck * zn[7 + 6 * i:13 + 6 * i]
+        xi = s6 - X
+        if cfg["surface"] == "dp":  # independent oracle: sqrt(3/2) |dev xi| + eta tr xi - sigma_y - R
+            dev = xi.copy()
+            dev[:3] -= xi[:3].sum() / 3.0
+            f = float(np.sqrt(1.5 * dev @ dev) + 0.125 * xi[:3].sum() - SY - Hh * zn[6])
+        else:
+            f = float(np.sqrt(max(xi @ np.asarray(surf.P, dtype=float) @ xi, 0.0)) - SY - Hh * zn[6])
+        dep, dp = zn[:6] - z[:6], zn[6] - z[6]
+        worst["yield"] = max(worst["yield"], f / SY)
+        worst["dp"] = min(worst["dp"], dp)
+        if cfg["surface"] in ("vm", "hill"):
+            worst["trace"] = max(worst["trace"], abs(dep[:3].sum()))
+        diss = float((s6 - X) @ dep) - Hh * zn[6] * dp + sum((2.0 / 3.0) * Ck * gk * float(zn[7 + 6 * i:13 + 6 * i] @ zn[7 + 6 * i:13 + 6 * i]) * dp for i, (Ck, gk) in enumerate(kin))
+        worst["dissipation"] = min(worst["dissipation"], diss)
+        worst["stress_vs_state"] = max(worst["stress_vs_state"], float(np.abs(s - (s6 if dim == 3 else s6[IDX2])).max() / scale))
+        if ps:
+            worst["sig_zz"] = max(worst["sig_zz"], abs(s6[ZZ]) / SY)
+        worst["written"] = max(worst["written"], written)
+        if dp > 1e-12:
+            nflow += 1
+        if bn is not None:
+            s_n, Ca_n, zn_n, _, _ = integ(bn, e, z)
+            worst["solvers"] = max(worst["solvers"], float(np.abs(s - s_n).max() / scale), float(np.abs(zn - zn_n).max()), float(np.abs(Ca - Ca_n).max() / scale))
+        if k % 6 == 3:
+            Cn = num_tangent(lambda ee: integ(b, ee, z)[0], e, h=1e-7 * ey * 100)
+            worst["tangent"] = max(worst["tangent"], float(np.abs(Ca - Cn).max() / scale))
+        z = zn
+    info = {"steps": len(path), "steps_with_plastic_flow": nflow, "not_converged": bad_conv, **{k_: float(v) for k_, v in worst.items()}}
+    ok = (worst["yield"] <= 1e-6 and worst["dp"] >= -1e-12 and worst["trace"] <= 1e-10 and worst["dissipation"] >= -1e-8 and worst["sig_zz"] <= 1e-6 and worst["solvers"] <= 1e-6
+          and worst["tangent"] <= 2e-4 and worst["written"] == 0 and worst["stress_vs_state"] <= 1e-9 and bad_conv == 0 and nflow >= 10)
+    res.record(f"{label}: admissible, dissipative, consistent along {len(path)} concrete steps", Outcome("held", how="ground-exact") if ok else Outcome("cex", env={}, how="structure", detail=str(info)),
+               lambda env: ((not ok), info), key=f"{label}: concrete path",
+               sample={"obligation": f"{label}: f <= 1e-6 sigma_y, dp >= 0, traceless flow, dissipation >= 0, sig_zz = 0 (plane stress), both local solvers agree, tangent = finite differences, inputs not written - a probe along one concrete path, no quantifier", **info})
+    res.twin(f"{label} twin", nflow >= 10)
+    res.paths = 1
+    return res
+
+
 class _Budget(Exception):
     pass
 
@@ -515,7 +894,7 @@ def job(cfg):
     old = signal.signal(signal.SIGALRM, on_alarm)
     signal.alarm(JOB_BUDGET_S)
     try:
-        return {"elastic": job_elastic, "inactive": job_inactive, "maxwell": job_maxwell}[cfg["kind"]](cfg)
+        return {"elastic": job_elastic, "inactive": job_inactive, "maxwell": job_maxwell, "spectral": job_spectral, "probe": job_probe}[cfg["kind"]](cfg)
     except _Budget:
         res = JobResult(cfg)
         res.inconclusive.append({"label": "job budget", "detail": f"symbolic run not finished after {JOB_BUDGET_S} s"})
@@ -560,6 +939,17 @@ def main():
     if tier == "thorough":
         for surf, hard, kin, solver in inact[:4]:
             configs.append({"kind": "inactive", "law": "ti", "mode": "3D", "surface": surf, "hardening": hard, "kinematic": kin, "solver": solver})
+    for mode in ["3D", "pstrain"]:
+        for side in (-1, 1):
+            configs.append({"kind": "spectral", "law": "iso", "mode": mode, "surface": "vm", "side": side})
+    if tier == "thorough":
+        configs.append({"kind": "spectral", "law": "iso", "mode": "3D", "surface": "hill", "side": 1})
+        configs.append({"kind": "spectral", "law": "ti", "mode": "3D", "surface": "vm", "side": 1})
+        configs.append({"kind": "spectral", "law": "iso", "mode": "pstrain", "surface": "vm", "side": 1, "symbolic_epsP": True})
+    probes = [("vm", "linear", None, "auto"), ("vm", "linear", "af", "auto"), ("hill", "linear", None, "auto"), ("dp", "linear", None, "newton")]
+    for surf, hard, kin, solver in probes:
+        for mode in (modes if tier == "thorough" or surf == "vm" else ["pstress"]):
+            configs.append({"kind": "probe", "law": "iso", "mode": mode, "surface": surf, "hardening": hard, "kinematic": kin, "solver": solver})
     results = harness.run_jobs(job, configs)
     harness.finish(
         PID, results, t0=t0,
